@@ -45,7 +45,7 @@ RULE = ("same harness as C06 (bin c06, driver drv_c06), seeds shifted so the two
         "Generic kinds also cover: symmetry-breaking single-variable field terms registered first/middle/last; interactions with constant diagonal "
         "but non-constant matrix (constant flag recomputed from the matrix); constant two-/three-variable interactions; three-variable full matrices "
         "under loop updates; full two-/three-variable matrices symmetric except for one (idx, ~idx) pair placed in every quarter of the index range, "
-        "with the gate oracle that no plain cluster update runs while a term is asymmetric (all 4^n entries compared). Serial tempering ladders mix a "
+        "with the gate oracle that no plain cluster update runs while a term is asymmetric (all 4^n entries compared). Direct swaps use swap_manager_and_state and the SwapManagers trait between hot and fresh samplers. Serial tempering ladders mix a "
         "zero-field replica with field replicas of one sign (>= 30 rounds of [steps; tempering_step], every replica judged with its own Hamiltonian). "
         "Mode loop-scripted-exit: every draw position of recorded loop updates (exchange-type, 3-variable, mixed generic samplers) re-run with the word "
         "0 / 2^11 (draw exactly 0.0), the largest word and words at and next to cumulative boundaries of the exit-leg weights. Ising walks include "
